@@ -510,36 +510,42 @@ class _SubsetMixin(_IndexMixin):
                 self, X, Y=Y, eval_gradient=eval_gradient, **kwargs
             )
         self._locked = True
-        if Y is not None:
-            Y = Y[:, self.indexes]
-        X = X[:, self.indexes]
-        result = self._base_cls.__call__(
-            self, X, Y=Y, eval_gradient=eval_gradient, **kwargs
-        )
-        self._locked = False
+        try:
+            if Y is not None:
+                Y = Y[:, self.indexes]
+            X = X[:, self.indexes]
+            result = self._base_cls.__call__(
+                self, X, Y=Y, eval_gradient=eval_gradient, **kwargs
+            )
+        finally:
+            self._locked = False
         return result
 
     def diag(self, X):
         if self._locked:
             return self._base_cls.diag(self, X)
         self._locked = True
-        result = self._base_cls.diag(self, X[:, self.indexes])
-        self._locked = False
+        try:
+            result = self._base_cls.diag(self, X[:, self.indexes])
+        finally:
+            self._locked = False
         return result
 
     def k_and_deriv(self, X, Y=None):
         if self._locked:
             return self._base_cls.k_and_deriv(self, X, Y=Y)
         self._locked = True
-        if Y is not None:
-            Y = Y[:, self.indexes]
-            shape = (X.shape[0], Y.shape[0], X.shape[1])
-        else:
-            shape = (X.shape[0], X.shape[0], X.shape[1])
-        dk = np.zeros(shape)
-        X = X[:, self.indexes]
-        k, dk[:, :, self.indexes] = self._base_cls.k_and_deriv(self, X, Y=Y)
-        self._locked = False
+        try:
+            if Y is not None:
+                Y = Y[:, self.indexes]
+                shape = (X.shape[0], Y.shape[0], X.shape[1])
+            else:
+                shape = (X.shape[0], X.shape[0], X.shape[1])
+            dk = np.zeros(shape)
+            X = X[:, self.indexes]
+            k, dk[:, :, self.indexes] = self._base_cls.k_and_deriv(self, X, Y=Y)
+        finally:
+            self._locked = False
         return k, dk
 
 
@@ -584,19 +590,21 @@ class _SpinSymMixin(_IndexMixin):
                 self, X, Y=Y, eval_gradient=eval_gradient, **kwargs
             )
         self._locked = True
-        if Y is not None:
-            Y = np.vstack((Y[:, self.alpha_ind], Y[:, self.beta_ind]))
-        else:
-            Y = None
-        X = np.vstack((X[:, self.alpha_ind], X[:, self.beta_ind]))
-        NX = X.shape[0] // 2
-        NY = Y.shape[0] // 2 if Y is not None else NX
-        k = self._base_cls.__call__(self, X, Y=Y, eval_gradient=eval_gradient, **kwargs)
-        if eval_gradient:
-            k, dk = k
-        k = k[:NX] + k[NX:]
-        k = k[:, :NY] + k[:, NY:]
-        self._locked = False
+        try:
+            if Y is not None:
+                Y = np.vstack((Y[:, self.alpha_ind], Y[:, self.beta_ind]))
+            else:
+                Y = None
+            X = np.vstack((X[:, self.alpha_ind], X[:, self.beta_ind]))
+            NX = X.shape[0] // 2
+            NY = Y.shape[0] // 2 if Y is not None else NX
+            k = self._base_cls.__call__(self, X, Y=Y, eval_gradient=eval_gradient, **kwargs)
+            if eval_gradient:
+                k, dk = k
+            k = k[:NX] + k[NX:]
+            k = k[:, :NY] + k[:, NY:]
+        finally:
+            self._locked = False
         if eval_gradient:
             dk = dk[:NX] + dk[NX:]
             dk = dk[:, :NY] + dk[:, NY:]
@@ -607,35 +615,39 @@ class _SpinSymMixin(_IndexMixin):
         if self._locked:
             return self._base_cls.diag(self, X)
         self._locked = True
-        XA = X[:, self.alpha_ind]
-        XB = X[:, self.beta_ind]
-        diag = self._base_cls.diag(self, XA)
-        diag += self._base_cls.diag(self, XB)
-        diag += np.diag(self._base_cls.__call__(self, XA, XB))
-        diag += np.diag(self._base_cls.__call__(self, XB, XA))
-        self._locked = False
+        try:
+            XA = X[:, self.alpha_ind]
+            XB = X[:, self.beta_ind]
+            diag = self._base_cls.diag(self, XA)
+            diag += self._base_cls.diag(self, XB)
+            diag += np.diag(self._base_cls.__call__(self, XA, XB))
+            diag += np.diag(self._base_cls.__call__(self, XB, XA))
+        finally:
+            self._locked = False
         return diag
 
     def k_and_deriv(self, X, Y=None):
         if self._locked:
             return self._base_cls.k_and_deriv(self, X, Y=Y)
         self._locked = True
-        Nfeat = X.shape[1]
-        if Y is not None:
-            Y = np.vstack((Y[:, self.alpha_ind], Y[:, self.beta_ind]))
-        else:
-            Y = None
-        X = np.vstack((X[:, self.alpha_ind], X[:, self.beta_ind]))
-        NX = X.shape[0] // 2
-        NY = Y.shape[0] // 2 if Y is not None else NX
-        k, dk = self._base_cls.k_and_deriv(self, X, Y=Y)
-        k = k[:NX] + k[NX:]
-        k = k[:, :NY] + k[:, NY:]
-        dk = dk[:, :NY] + dk[:, NY:]
-        dkfull = np.zeros((NX, NY, Nfeat))
-        dkfull[:, :, self.alpha_ind] = dk[:NX]
-        dkfull[:, :, self.beta_ind] = dk[NX:]
-        self._locked = False
+        try:
+            Nfeat = X.shape[1]
+            if Y is not None:
+                Y = np.vstack((Y[:, self.alpha_ind], Y[:, self.beta_ind]))
+            else:
+                Y = None
+            X = np.vstack((X[:, self.alpha_ind], X[:, self.beta_ind]))
+            NX = X.shape[0] // 2
+            NY = Y.shape[0] // 2 if Y is not None else NX
+            k, dk = self._base_cls.k_and_deriv(self, X, Y=Y)
+            k = k[:NX] + k[NX:]
+            k = k[:, :NY] + k[:, NY:]
+            dk = dk[:, :NY] + dk[:, NY:]
+            dkfull = np.zeros((NX, NY, Nfeat))
+            dkfull[:, :, self.alpha_ind] = dk[:NX]
+            dkfull[:, :, self.beta_ind] = dk[NX:]
+        finally:
+            self._locked = False
         return k, dkfull
 
 
